@@ -1,13 +1,184 @@
 import Uflow.Model.HalfConn
+import Uflow.Lemmas.CreditRun
+import Uflow.Lemmas.CreditEx
 
-/-! # C13 (theorems are being added) -/
+/-!
+# C13 — leaky-bucket credit (`flush_alloc`)
+
+Models: `Uflow.HalfConn` (`fillFlushAlloc`, `step`, `flush` = `emitAckFrames` → `emitDataFrames` →
+`emitSyncFrame`), `Uflow.Rate.FloatOps` (abstract floating point: every theorem holds for every
+`ops`).
+
+Vocabulary (defined in `Uflow/Lemmas/Credit*.lean`, `Uflow/Lemmas/HcFrame*.lean`):
+* `bytes out` : total length of a list of frames;
+* `PktOk p` : `p.data.length ≤ (p.lastFragmentId + 1) * 1448` (the last fragment is at most one
+  fragment long); `PsOk ps` : every packet in the window is `PktOk` and every queued packet is at most
+  `MAX_PACKET_SIZE` bytes (the precondition of `Endpoint::send`, which `HalfConn.send` does not
+  check). `PsOk` holds initially and is preserved by every operation (`C13_psOk_*`); it is what
+  makes every data frame fit `MAX_FRAME_SIZE`;
+* `Ev`, `exec`, `run` : an arbitrary interleaving of `step`, `flush`, `send`, `receive`,
+  `handle_{data,sync,ack}_frame` as an event list; `run` returns the final state, the number of bytes
+  handed to the frame sink and the credit granted by the fills, where `evCredit` of `step now` is
+  `max new_bytes 0` (`new_bytes` = first component of `ops.fillBytes`, `stepCredit`).
+-/
 
 namespace Uflow.Props.C13
 
-open Uflow.Rate
+open Uflow Uflow.Gen Uflow.Codec Uflow.HalfConn Uflow.Credit Uflow.HcFrame Uflow.CreditEx
+open Uflow.Rate (FloatOps satMul2 u32max)
+
+variable {F : Type}
 
 /-- `satMul2` (the model of `saturating_mul(2)`) never exceeds u32::MAX. -/
 theorem C13_satMul2_le (x : Nat) : satMul2 x ≤ u32max := by
   unfold satMul2; omega
+
+/-! ## 1. The fill is capped -/
+
+/-- After `fill_flush_alloc`: if a previous flush time is recorded the credit is
+`min (flush_alloc.saturating_add(new_bytes)) alloc_max`, in particular at most
+`alloc_max = ops.fillMax send_rate rtt_s`; otherwise it is unchanged. In both cases the flush time
+is recorded. -/
+theorem C13_fill_cap (ops : FloatOps F) (s : State F) (now : Nat) :
+    (∀ last, s.timeLastFlushed = some last →
+      (fillFlushAlloc ops s now).flushAlloc =
+        min (satAdd s.flushAlloc (ops.fillBytes s.rate.sendRate (now - last) s.flushFrac).1)
+          (ops.fillMax s.rate.sendRate s.rate.rttS) ∧
+      (fillFlushAlloc ops s now).flushAlloc ≤ ops.fillMax s.rate.sendRate s.rate.rttS) ∧
+    (s.timeLastFlushed = none → (fillFlushAlloc ops s now).flushAlloc = s.flushAlloc) ∧
+    (fillFlushAlloc ops s now).timeLastFlushed = some now := by
+  refine ⟨?_, fill_none ops s now, (fill_frame ops s now).2.2.2.2⟩
+  intro last h
+  have := fill_some ops s now last h
+  exact ⟨this, by rw [this]; exact Int.min_le_right _ _⟩
+
+/-- Non-vacuity (instance `Uflow.CreditEx`: `exOps : FloatOps Nat`, `fillMax = 3000`): after one
+`step` a flush time is recorded, and a fill 10 s later (14720 new bytes at 1472 B/s) is cut to the
+cap 3000; before the first `step` there is no flush time. -/
+example : (exState [.step 0]).timeLastFlushed = some 0 ∧
+    (exState [.step 0]).flushAlloc = 0 ∧
+    (exOps.fillBytes (exState [.step 0]).rate.sendRate (10000000000 - 0) (exState [.step 0]).flushFrac).1 = 14720 ∧
+    (fillFlushAlloc exOps (exState [.step 0]) 10000000000).flushAlloc = 3000 ∧
+    exS0.timeLastFlushed = none := by
+  refine ⟨by decide +kernel, by decide +kernel, by decide +kernel, by decide +kernel, rfl⟩
+
+/-- `HalfConnection::step` changes the credit exactly as `fill_flush_alloc` does (so the cap of
+`C13_fill_cap` applies to the state after `step`). -/
+theorem C13_step_fill (ops : FloatOps F) (s s' : State F) (now : Nat)
+    (h : step ops s now = .ok s') :
+    s'.flushAlloc = (fillFlushAlloc ops s now).flushAlloc ∧ s'.timeLastFlushed = some now := by
+  have := step_frame ops s s' now h
+  exact ⟨this.1, this.2.2.2.2.2.1⟩
+
+/-! ## 2. Every emitted byte is debited once; nothing is started without credit -/
+
+/-- For every state: `flush` debits exactly the bytes it hands to the sink, and with negative
+credit it sends nothing. -/
+theorem C13_frame_needs_credit (s s' : State F) (out : List (List Nat))
+    (h : flush s = .ok (s', out)) :
+    s'.flushAlloc = s.flushAlloc - ((out.map List.length).sum : Nat) ∧
+    (s.flushAlloc < 0 → out = [] ∧ s'.flushAlloc = s.flushAlloc) := by
+  obtain ⟨hd, _⟩ := flush_debit False s s' out (fun h => h.elim) h
+  exact ⟨hd.1, fun hA => hd.neg hA⟩
+
+/-- Non-vacuity: with credit 0 a flush sends one 119-byte data frame and leaves credit -119; a
+second flush (credit negative) sends nothing. -/
+example :
+    (match flush (exState [.send (List.replicate 100 7) 0 .reliable, .step 0]) with
+     | .ok (s', out) => decide (out.length = 1 ∧ s'.flushAlloc = -119)
+     | .error _ => false) = true ∧
+    (exState [.send (List.replicate 100 7) 0 .reliable, .step 0, .flush]).flushAlloc = -119 ∧
+    (match flush (exState [.send (List.replicate 100 7) 0 .reliable, .step 0, .flush]) with
+     | .ok (s', out) => decide (out = [] ∧ s'.flushAlloc = -119)
+     | .error _ => false) = true := by
+  refine ⟨by decide +kernel, by decide +kernel, by decide +kernel⟩
+
+/-- With a well-formed sender (`PsOk`): every frame fits `MAX_FRAME_SIZE`, a non-negative credit
+never drops below minus one frame, hence a credit `≥ -MAX_FRAME_SIZE` stays `≥ -MAX_FRAME_SIZE`;
+the sender stays well-formed. -/
+theorem C13_credit_floor (s s' : State F) (out : List (List Nat)) (hps : PsOk s.ps)
+    (h : flush s = .ok (s', out)) :
+    (∀ f ∈ out, f.length ≤ MAX_FRAME_SIZE) ∧
+    (0 ≤ s.flushAlloc → -(MAX_FRAME_SIZE : Int) ≤ s'.flushAlloc) ∧
+    (-(MAX_FRAME_SIZE : Int) ≤ s.flushAlloc → -(MAX_FRAME_SIZE : Int) ≤ s'.flushAlloc) ∧
+    PsOk s'.ps := by
+  obtain ⟨hd, hp⟩ := flush_debit True s s' out (fun _ => hps) h
+  exact ⟨hd.2.2.2 trivial, hd.2.2.1 trivial, hd.floor trivial, hp trivial⟩
+
+/-- The same debit relation for each of the three emitters (`Debit b A A' out` :
+`A' = A - bytes out ∧ (A < 0 → out = []) ∧ (b → 0 ≤ A → -1472 ≤ A') ∧ (b → all frames ≤ 1472)`). -/
+theorem C13_emitters (b : Prop) (s : State F) :
+    (∀ s' out st, emitAckFrames s = (s', out, st) → Debit b s.flushAlloc s'.flushAlloc out) ∧
+    (∀ s' out st, emitSyncFrame s = .ok (s', out, st) → Debit b s.flushAlloc s'.flushAlloc out) ∧
+    (∀ s' out st, (b → PsOk s.ps) → emitDataFrames s = .ok (s', out, st) →
+      Debit b s.flushAlloc s'.flushAlloc out) :=
+  ⟨fun s' out st h => emitAckFrames_debit b s s' out st h,
+   fun s' out st h => emitSyncFrame_debit b s s' out st h,
+   fun s' out st hps h => (emitDataFrames_debit b s s' out st hps h).1⟩
+
+/-- `PsOk` holds for a fresh half connection and is preserved by every event whose `send`s respect
+`MAX_PACKET_SIZE`. -/
+theorem C13_psOk_init (ops : FloatOps F) (c : Config) (now : Nat) (rng : Rng) :
+    PsOk (HalfConn.init ops c now rng).ps := by
+  simp [PsOk, HalfConn.init, PSend.init]
+
+theorem C13_psOk_exec (ops : FloatOps F) (s s1 : State F) (ev : Ev) (out : List (List Nat))
+    (hok : ev.Ok) (hps : PsOk s.ps) (h : exec ops s ev = .ok (s1, out)) : PsOk s1.ps :=
+  (exec_credit ops s s1 ev out hok hps h).1
+
+/-! ## 3. Flushing never adds credit -/
+
+theorem C13_flush_idempotent_credit (s s' : State F) (out : List (List Nat))
+    (h : flush s = .ok (s', out)) : s'.flushAlloc ≤ s.flushAlloc :=
+  (flush_debit False s s' out (fun h => h.elim) h).1.le
+
+/-! ## 4. The rate bound -/
+
+/-- Over ANY interleaving of operations starting in a well-formed state: the bytes sent, plus the
+credit left at the end (or `-1472` if it is lower), are at most the credit at the start (or `-1472`
+if it is lower) plus the bytes credited by the fills (`Σ max new_bytes 0` over the `step`s of the
+list). In particular `bytes ≤ max A₀ (-1472) + Σ credits + 1472`. -/
+theorem C13_interval (ops : FloatOps F) (evs : List Ev) (s s' : State F) (b : Nat) (c : Int)
+    (hok : ∀ ev ∈ evs, ev.Ok) (hps : PsOk s.ps) (h : run ops s evs = .ok (s', b, c)) :
+    (b : Int) + max s'.flushAlloc (-(MAX_FRAME_SIZE : Int)) ≤
+      max s.flushAlloc (-(MAX_FRAME_SIZE : Int)) + c ∧
+    (b : Int) ≤ max s.flushAlloc (-(MAX_FRAME_SIZE : Int)) + c + MAX_FRAME_SIZE := by
+  have := (run_credit ops evs s s' b c hok hps h).2
+  refine ⟨this, ?_⟩
+  simp only [MAX_FRAME_SIZE] at this ⊢
+  omega
+
+/-- Non-vacuity: the run `Uflow.CreditEx.exEvs` (three packets, three steps at 0 s, 1 s, 3 s with
+flushes in between) satisfies the hypotheses; it sends 3429 bytes with 4416 bytes of credit granted
+and 987 left: `3429 + 987 ≤ 0 + 4416`. -/
+example : (∀ ev ∈ exEvs, ev.Ok) ∧ PsOk exS0.ps ∧
+    (match run exOps exS0 exEvs with
+     | .ok (s, b, c) => decide (b = 3429 ∧ c = 4416 ∧ s.flushAlloc = 987)
+     | .error _ => false) = true :=
+  ⟨by decide +kernel, C13_psOk_init _ _ _ _, by decide +kernel⟩
+
+/-- Between two `step`s (an event list without `step`, e.g. `flush*` interleaved with anything
+else): no credit is granted, so the bytes sent are at most the credit after the fill plus one
+frame. -/
+theorem C13_interval_between_steps (ops : FloatOps F) (evs : List Ev) (s s' : State F) (b : Nat)
+    (c : Int) (hok : ∀ ev ∈ evs, ev.Ok) (hns : ∀ ev ∈ evs, ∀ now, ev ≠ .step now)
+    (hps : PsOk s.ps) (hA : -(MAX_FRAME_SIZE : Int) ≤ s.flushAlloc)
+    (h : run ops s evs = .ok (s', b, c)) :
+    c = 0 ∧ (b : Int) ≤ s.flushAlloc + MAX_FRAME_SIZE := by
+  have hc := run_noStep_credit ops evs s s' b c hns h
+  have := (C13_interval ops evs s s' b c hok hps h).2
+  refine ⟨hc, ?_⟩
+  simp only [MAX_FRAME_SIZE] at this hA ⊢
+  omega
+
+/-- Non-vacuity: no `step` at all, credit 0: one data frame of 119 bytes `≤ 0 + 1472` goes out. -/
+example : (∀ ev ∈ [Ev.send (List.replicate 100 7) 0 .reliable, .flush, .flush], ev.Ok) ∧
+    (∀ ev ∈ [Ev.send (List.replicate 100 7) 0 .reliable, .flush, .flush], ∀ now, ev ≠ .step now) ∧
+    PsOk exS0.ps ∧ -(MAX_FRAME_SIZE : Int) ≤ exS0.flushAlloc ∧
+    (match run exOps exS0 [.send (List.replicate 100 7) 0 .reliable, .flush, .flush] with
+     | .ok (s, b, c) => decide (b = 119 ∧ c = 0 ∧ s.flushAlloc = -119)
+     | .error _ => false) = true :=
+  ⟨by decide +kernel, fun ev hev now he => by subst he; simp at hev, C13_psOk_init _ _ _ _,
+    by decide, by decide +kernel⟩
 
 end Uflow.Props.C13
